@@ -301,7 +301,7 @@ def types_phase(ctx, binp):
                     done[int(i)] = r
         for i, r in sorted(done.items()):
             idx, line = todo[i]
-            ctx.hist("element_types_runs", "string+any+iface")
+            ctx.hist("element_types_runs", "string+any+iface+struct{}")
             ctx.count("types " + line, nontrivial=len(line.split()) > 2)
             if any(not part.strip().endswith(":ok") for part in r.split("|")):
                 ctx.violations.append(vlib.Violation("impl", "pipe.New over another element type (0 = the nil interface value) does not deliver exactly what was sent, in order, before closing: " + r,
